@@ -235,6 +235,92 @@ def fns_in(T):
     return out
 
 
+def param_names(params):
+    """names of simple parameters `a: T, b: &U` (no patterns, no self); None when not that simple"""
+    names, depth, expect = [], 0, True
+    for i, t in enumerate(params):
+        if t.k == "p" and t.v in ("(", "[", "{", "<"):
+            depth += 1
+        elif t.k == "p" and t.v in (")", "]", "}", ">"):
+            depth -= 1
+        elif t.k == "p" and t.v == "," and depth == 0:
+            expect = True
+        elif expect and depth == 0:
+            if t.k == "id" and t.v == "mut":
+                continue
+            if t.k != "id" or t.v == "self" or i + 1 >= len(params) or params[i + 1].v != ":":
+                return None
+            names.append(t.v)
+            expect = False
+    return names
+
+
+def inline_call(stmt, fns, where="?"):
+    """`let X = [Self ::] f ( a1 , .. , an ) [?]` where f is defined once in `fns` with a body that is ONE tail
+    expression (no statement), simple parameters, and every argument a single identifier or `& identifier`:
+    returns the statement with the call replaced by the body (parameters substituted), else None.  The extract-
+    function refactoring is the only rewrite this undoes; anything else keeps being refused by the caller."""
+    w = [t.v for t in stmt]
+    if len(w) < 6 or w[0] != "let" or w[2] != "=":
+        return None
+    i = 3
+    if w[i:i + 2] == ["Self", "::"]:
+        i += 2
+    if stmt[i].k != "id" or w[i + 1] != "(":
+        return None
+    close = match_close(stmt, i + 1)
+    rest = w[close + 1:]
+    if rest not in ([], ["?"]):
+        return None
+    defs = fns.get(w[i], [])
+    if len(defs) != 1:
+        return None
+    names = param_names(defs[0]["params"])
+    body = defs[0]["body"]
+    if names is None or any(t.k == "p" and t.v == ";" for t in body):
+        return None
+    # arguments
+    args, cur, depth = [], [], 0
+    for t in stmt[i + 2:close]:
+        if t.k == "p" and t.v in ("(", "[", "{"):
+            depth += 1
+        elif t.k == "p" and t.v in (")", "]", "}"):
+            depth -= 1
+        if t.k == "p" and t.v == "," and depth == 0:
+            args.append(cur)
+            cur = []
+        else:
+            cur.append(t)
+    if cur:
+        args.append(cur)
+    if len(args) != len(names):
+        return None
+    sub = {}
+    for n, a in zip(names, args):
+        av = [t.v for t in a]
+        if len(a) == 1 and a[0].k == "id":
+            sub[n] = a
+        elif len(a) == 2 and av[0] == "&" and a[1].k == "id":
+            sub[n] = a          # a reference parameter used through auto-deref in the body
+        else:
+            return None
+    tail_q = rest == ["?"]
+    if tail_q:
+        # `Ok ( E )` body with `?` at the call site: the value is E
+        bw = [t.v for t in body]
+        if bw[:2] != ["Ok", "("] or match_close(body, 1) != len(body) - 1:
+            return None
+        body = body[2:-1]
+    out = list(stmt[:3])
+    for t in body:
+        if t.k == "id" and t.v in sub:
+            a = sub[t.v]
+            out.extend(a if len(a) == 1 else a[1:])       # `&x` passed for `p: &T`: `p.f()` is `x.f()`
+        else:
+            out.append(t)
+    return out
+
+
 class File:
     def __init__(self, path, rel=None):
         self.path = path
